@@ -26,6 +26,9 @@ NoLeak(e) == \A o \in Owned(e) : o.id \in Refs(e)
 AtMostOne(e) == \A n \in RNames(e) : Cardinality(LiveFor(e, n)) <= 1
 \* the resource of a name keeps its metadata.name from one state to the next
 NameStable(p, e) == \A n \in RNames(p) \cap RNames(e) : LiveFor(p, n) = LiveFor(e, n)
+\* the composition-resource-name annotation of a composed resource names the desired resource / template its body was
+\* rendered from (o.made: the scripted bodies carry their name in spec.param) - whatever annotation the author's body carried
+Tie(e) == \A o \in Owned(e) : (o.made # "-" /\ o.rname # "-") => o.rname = o.made
 \* once a fault-free reconcile completed, the next fault-free reconcile (same desired state) changes no object:
 \* the digest over all resourceVersions in the store is the one recorded at the end of the previous reconcile
 Quiescent(e) == (e.ev = "end" /\ e.steady) => e.post.digest = e.prevDigest
@@ -40,6 +43,10 @@ FailSafeRefs(p, e) == (e.ev = "call" /\ e.pfail) => e.post.refs = p.post.refs
 NeverDeleteDesired(p, e) ==
   (Wrote(e) /\ e.kind = "cd" /\ e.verb = "delete") =>
      \A o \in ObjOf(p, e.target) : ~(o.ctrl # "foreign" /\ o.rname \in Range(e.want))
+\* ... judged by what the resource was rendered from as well as by its annotation
+NeverDeleteDesiredMade(p, e) ==
+  (Wrote(e) /\ e.kind = "cd" /\ e.verb = "delete") =>
+     \A o \in ObjOf(p, e.target) : ~(o.ctrl = "xr" /\ o.made \in Range(e.want))
 \* a reconcile that completed deleted exactly the referenced, controllable resources that are no longer desired
 StartObjs(e) == Range(e.start.objs)
 Undesired(e) == {o \in StartObjs(e) : o.id \in Range(e.start.refs) /\ o.ctrl # "foreign" /\ o.rname # "-" /\ o.rname \notin Range(e.want)}
@@ -47,6 +54,12 @@ Completed(e) == e.ev = "end" /\ e.result = "ok" /\ ~e.faulty /\ ~e.pfail
 \* (e.vanished: resources the environment removed in the middle of this reconcile - there was nothing left to delete)
 GcDeletesAllUndesired(e) == Completed(e) => {o.id : o \in {x \in Undesired(e) : x.st = "live"}} \subseteq (Range(e.gcd) \cup Range(e.vanished))
 GcDeletesOnlyUndesired(e) == Completed(e) => Range(e.gcd) \subseteq {o.id : o \in Undesired(e)}
+
+\* ---- C04 (rider): every pipeline step is told about every existing composed resource of this XR - every object that
+\* spec.resourceRefs names and the XR controls, live or being deleted, is in the observed state of the request,
+\* also when the informer cache has not seen it yet
+ObservedComplete(e) ==
+  e.ev = "fn" => \A o \in Objs(e) : (o.ctrl = "xr" /\ o.id \in Refs(e)) => o.id \in Range(e.observed)
 
 \* ---- C02: a composed resource controlled by another owner is never written or deleted
 ForeignUntouched(p, e) == (Wrote(e) /\ e.kind = "cd") => \A o \in ObjOf(p, e.target) : o.ctrl # "foreign"
@@ -57,6 +70,8 @@ Check(i) ==
   /\ (NoLeak(e) \/ Viol("NoLeak", i))
   /\ (AtMostOne(e) \/ Viol("AtMostOne", i))
   /\ (Quiescent(e) \/ Viol("Quiescent", i))
+  /\ (Tie(e) \/ Viol("Tie", i))
+  /\ (ObservedComplete(e) \/ Viol("Observed.Complete", i))
   /\ (FailSafeWrites(e) \/ Viol("FailSafe.Writes", i))
   /\ (GcDeletesAllUndesired(e) \/ Viol("GcExact.Missed", i))
   /\ (GcDeletesOnlyUndesired(e) \/ Viol("GcExact.Extra", i))
@@ -65,6 +80,7 @@ Check(i) ==
         /\ (NameStable(p, e) \/ Viol("NameStable", i))
         /\ (FailSafeRefs(p, e) \/ Viol("FailSafe.Refs", i))
         /\ (NeverDeleteDesired(p, e) \/ Viol("NeverDeleteDesired", i))
+        /\ (NeverDeleteDesiredMade(p, e) \/ Viol("NeverDeleteDesired.Made", i))
         /\ (ForeignUntouched(p, e) \/ Viol("ForeignUntouched", i)))
 
 Init == l = 0
